@@ -893,6 +893,12 @@ func Run(r *ev.Run) {
 			return b
 		}
 		cases := []vcase{{"control", nil, true}, {"no-default-alpn-empty", par(2), true}, {"port-2", par(3, 1, 187), true}, {"ipv4hint-4", par(4, seq(4)...), true}, {"ipv4hint-8", par(4, seq(8)...), true}, {"ipv6hint-16", par(6, seq(16)...), true}}
+		// round 14: EMPTY lists - "an empty list of addresses is invalid" (7.3), the alpn value "consists of at least one alpn-id" and
+		// an alpn-id is 1*255OCTET (7.1.1), the mandatory value is a non-empty list of two-octet keys (8)
+		cases = append(cases, vcase{"alpn-one-id", par(1, 2, 'h', '2'), true}, vcase{"alpn-two-ids", par(1, 2, 'h', '3', 2, 'h', '2'), true}, vcase{"mandatory-one-key", par(0, 0, 1), true}, vcase{"mandatory-names-key-8", par(0, 0, 1, 0, 8), true}, vcase{"mandatory-names-key-7-and-65280", par(0, 0, 7, 0xff, 0), true}, vcase{"mandatory-names-key-65535", par(0, 0xff, 0xff), true}, // which keys a client understands is the consumer's business (8), not the codec's
+			vcase{"ipv4hint-0-octets", par(4), false}, vcase{"ipv6hint-0-octets", par(6), false},
+			vcase{"alpn-0-octets", par(1), false}, vcase{"alpn-empty-id", par(1, 0), false}, vcase{"alpn-empty-id-behind-an-id", par(1, 2, 'h', '2', 0), false}, vcase{"alpn-empty-id-before-an-id", par(1, 0, 2, 'h', '2'), false}, vcase{"alpn-id-longer-than-the-value", par(1, 3, 'h', '2'), false},
+			vcase{"mandatory-0-octets", par(0), false}, vcase{"mandatory-1-octet", par(0, 1), false}, vcase{"mandatory-3-octets", par(0, 0, 1, 0), false})
 		for _, n := range []int{1, 2} {
 			cases = append(cases, vcase{fmt.Sprintf("no-default-alpn-%d-octets", n), par(2, seq(n)...), false})
 		}
